@@ -116,8 +116,16 @@ func (g *gen) craftInjection(sc rscript, pending, seen [][]byte, tgt, src *party
 		}
 		return append([]byte{}, seen[g.r.Intn(len(seen))]...), "replay"
 	case 6: // foreign sender instance
-		if sc.version != 3 || ts.TheirTag == 0 {
+		if sc.version != 3 {
 			return nil, ""
+		}
+		if ts.TheirTag == 0 {
+			// not bound to a peer instance yet: a stray, rejected message of some other instance
+			// (the valid-tag data message is rejected because there is no session)
+			if ts.MsgState == 1 {
+				return nil, ""
+			}
+			return tags(0x777+uint32(g.r.Intn(1000)), ts.OurTag), "stray-instance-before-binding"
 		}
 		return tags(ts.TheirTag+1, ts.OurTag), "foreign-sender-tag"
 	case 7: // foreign receiver instance
@@ -320,7 +328,7 @@ func (g *gen) runScript(w *world, sc rscript, inject bool) (obs []string, injInf
 							olog.viol("C02", "tampered-tlv-processed", injInfo)
 						}
 					}
-					if strings.Contains(what, "tag") {
+					if strings.Contains(what, "-tag") {
 						olog.ok("C15")
 						if plain != nil || len(ts) > 0 && !rejected {
 							olog.viol("C15", "foreign-instance-acted-upon", injInfo)
